@@ -25,6 +25,8 @@ class _Replay(dict):
     def get(self, key, default=None):
         if key.startswith("InspectFunction.inspect_call#"):
             return "h_args.call_site_histories"
+        if "without_readable_signature" in key or "without_a_readable_signature" in key:
+            return "h_args.unreadable_signature"
         return dict.get(self, key, default)
 
 
